@@ -404,6 +404,26 @@ fn sweeps(ctx: &Ctx, st: &mut Stats) -> Vec<Violation> {
     out
 }
 
+/// cases for the Miri engine: all pairs of special values and a few generated batches
+pub fn corpus(seed: u64, n: usize) -> Vec<Value> {
+    let mut out = Vec::new();
+    for a in SPECIALS {
+        let row: Vec<(f32, f32)> = SPECIALS.iter().map(|b| (f32::from_bits(a), f32::from_bits(*b))).collect();
+        out.push(case_json(&Case::Total(row)));
+    }
+    let strat = strategy();
+    for c in sample_strategy(&strat, mix64(seed ^ 0x18), n) {
+        let c = match c {
+            Case::Cbrt(v) => Case::Cbrt(v.into_iter().take(8).collect()),
+            Case::Pow(v) => Case::Pow(v.into_iter().take(8).collect()),
+            Case::Exp(v) => Case::Exp(v.into_iter().take(8).collect()),
+            Case::Total(v) => Case::Total(v.into_iter().take(16).collect()),
+        };
+        out.push(case_json(&c));
+    }
+    out
+}
+
 pub fn replay(v: &Value) -> Result<(), String> {
     check(&case_from_json(v).ok_or("bad case")?, &mut Stats::new()).map_err(|v| v.message)
 }
